@@ -1259,7 +1259,7 @@ def _copy(x):
 class C10(Property):
     id = "C10"
     prop_modules = ["CobaVerif.Props.C10"]
-    quick_n, thorough_n, search_n = 3000, 40000, 3000
+    quick_n, thorough_n, search_n = 3000, 30000, 3000
     case_timeout = 60
     workers = 8
     rule = ("streams of 1-3 simulated / IGL / logged interactions over one action schema (scalar, string, Categorical, dense tuple/list incl. nested, "
